@@ -94,6 +94,8 @@ def val_eq(got, exp, exact=True, err_exact=False):
     """got: normalised library value; exp: one reference outcome"""
     if exp is ANY:
         return True
+    if isinstance(exp, str) and exp in ERROR_TEXTS:
+        exp = Err(exp)      # the library represents error values by their text: an expected error text IS that error value
     if isinstance(exp, Err):
         if not isinstance(got, Err):
             return False
